@@ -228,6 +228,7 @@ func (ex *Exec) resetPath(prefix []uint64) {
 	ex.looseKF = map[string]int{}
 	ex.threads = nil
 	ex.varSubst = map[string]*Term{}
+	ex.termSubst = map[int]*Term{}
 	ex.rwMemo = nil
 }
 
